@@ -19,6 +19,12 @@ Inductive selfop :=
 | SUnion | SIntersection | SDifference | SSymDiff
 | SIsSubset | SIsSuperset | SIsDisjoint.
 
+(* ==, != (IndexedSet.__eq__) and the ordering operators inherited from collections.abc.Set *)
+Inductive cmpop := CEq | CNe | CLe | CLt | CGe | CGt.
+
+Fixpoint nodupb (l : list K) : bool :=
+  match l with [] => true | x :: r => negb (l_mem x r) && nodupb r end.
+
 Inductive op :=
 (* mutators *)
 | Add (x : K) | Remove (x : K) | Discard (x : K)
@@ -38,7 +44,8 @@ Inductive op :=
 | Slice (a b : option Z) (k : option nat)  (* s[a:b:k], k positive or omitted *)
 | Index (x : K) | Count (x : K) | Contains (x : K) | Len | Iter | Reversed
 | Snapshot                                 (* every index, negative too, index() of every item *)
-| SelfOp (k : selfop).                     (* the operand is the set itself *)
+| SelfOp (k : selfop)                      (* the operand is the set itself *)
+| Cmp (k : cmpop) (o : operand).           (* s == o, s != o, s <= o, s < o, s >= o, s > o *)
 
 (* the same call with an explicit operand *)
 Definition expand_self (k : selfop) (o : operand) : op :=
